@@ -9,6 +9,7 @@ import Continuum.Mgr
 import Continuum.Lemmas.UowLive
 import Continuum.Spec.Links
 import Continuum.Activity
+import Continuum.Revert
 
 /-!
 # Line-protocol driver
@@ -44,6 +45,10 @@ structure DState where
   arows : List ARow := []
   mgr : Mgr := {}
   actV : VTable TKey := []
+  c05V : VTable TKey := []
+  c05Before : Live := []
+  c05After : Live := []
+  c05Links : List Link := []
   actBefore : List Act := []
   actAfter : List Act := []
   segLinks : List Link := []      -- live links at the last boundary (implementation, by SQL)
@@ -192,6 +197,38 @@ def parseAct : List String → Option Act
   | [id, obj, tgt, tx, otx, ttx] => do
     pure { id := (← parseNat id), obj := (← parseOTKey obj), tgt := (← parseOTKey tgt), tx := (← parseONat tx),
            objTx := (← parseONat otx), tgtTx := (← parseONat ttx) }
+  | _ => none
+
+
+/-! ## revert level (C05) -/
+
+def tableOf (v : VTable TKey) (tid : Nat) : VTable Key :=
+  (v.filter (fun r => r.key.1 = tid)).map (fun r =>
+    { key := r.key.2, tx := r.tx, endTx := r.endTx, op := r.op, vals := r.vals, mods := r.mods })
+
+/-- verdict of one relationship named in the revert call: `(holds, touched keys)` -/
+def c05Rel (st_v : VTable TKey) (arows : List ARow) (before after : Live) (links : List Link)
+    (v : VRow TKey) (spec : String) : Option (Bool × List TKey) :=
+  match spec.splitOn ":" with
+  | ["o2m", ct, fk] => do
+    let ct ← parseNat ct
+    let fk ← parseNat fk
+    let shown := oneToMany (tableOf st_v ct) fk v.key.2 v.tx
+    pure (decide (C05.O2MHolds after ct fk v.key.2 shown),
+          liveChildren before ct fk v.key.2 ++ shown.map (fun r => (ct, r.key)))
+  | ["m2m", rt, atb, lf] => do
+    let rt ← parseNat rt
+    let atb ← parseNat atb
+    let lf ← parseBool lf
+    let shown := manyToMany (tableOf st_v rt) arows atb lf v.key.2 v.tx
+    pure (decide (C05.M2MHolds after links rt atb lf v.key.2 shown), shown.map (fun r => (rt, r.key)))
+  | ["m2o", pt, fk] => do
+    let pt ← parseNat pt
+    let fk ← parseNat fk
+    let r : VRow Key := { key := v.key.2, tx := v.tx, endTx := v.endTx, op := v.op, vals := v.vals, mods := v.mods }
+    match manyToOne (tableOf st_v pt) (fkOf fk r) v.tx with
+    | some pv => pure (decide (liveGet after (pt, pv.key) = some pv.vals), [(pt, pv.key)])
+    | none => pure (true, [])
   | _ => none
 
 def bad : Option String := some "bad-op"
@@ -399,6 +436,40 @@ def handle (st : DState) (toks : List String) : DState × Option String :=
       let r := decideB (C18.Holds st.actV T st.actBefore st.actAfter)
       ({ st with actV := [], actBefore := [], actAfter := [] }, some r)
     | none => (st, bad)
+  | "c05v" :: tid :: rest =>
+    match parseNat tid, parseRow rest with
+    | some tid, some r =>
+      let r' : VRow TKey := { key := (tid, r.key), tx := r.tx, endTx := r.endTx, op := r.op, vals := r.vals, mods := r.mods }
+      ({ st with c05V := st.c05V ++ [r'] }, none)
+    | _, _ => (st, bad)
+  | ["c05b", tid, pk, vals] =>
+    match parseNat tid, parseKey pk, parseVals vals with
+    | some tid, some pk, some vals => ({ st with c05Before := st.c05Before ++ [((tid, pk), vals)] }, none)
+    | _, _, _ => (st, bad)
+  | ["c05a", tid, pk, vals] =>
+    match parseNat tid, parseKey pk, parseVals vals with
+    | some tid, some pk, some vals => ({ st with c05After := st.c05After ++ [((tid, pk), vals)] }, none)
+    | _, _, _ => (st, bad)
+  | ["c05l", tbl, link] =>
+    match parseNat tbl, parseKey link with
+    | some tbl, some link => ({ st with c05Links := st.c05Links ++ [(tbl, link)] }, none)
+    | _, _ => (st, bad)
+  | ["q05", tid, pk, tx, rels] =>
+    match parseNat tid, parseKey pk, parseNat tx with
+    | some tid, some pk, some tx =>
+      match rowAt st.c05V (tid, pk) tx with
+      | some v =>
+        let target := decideB (C05.TargetHolds st.c05After v)
+        let specs := if rels == "-" then [] else rels.splitOn ";"
+        let rs := specs.map (c05Rel st.c05V st.arows st.c05Before st.c05After st.c05Links v)
+        if rs.any (fun r => r.isNone) then (st, bad) else
+        let rs' := rs.filterMap id
+        let relBits := String.join (rs'.map (fun r => showBool r.1))
+        let touched := (v.key :: rs'.flatMap (fun r => r.2))
+        let frame := if v.op = .delete then "-" else decideB (C05.FrameHolds st.c05Before st.c05After touched)
+        ({ st with c05Before := [], c05After := [], c05Links := [] }, some s!"{target} {if relBits.isEmpty then "-" else relBits} {frame}")
+      | none => (st, bad)
+    | _, _, _ => (st, bad)
   | ["q08", k, vs, idx, nxt, prv] =>
     match parseKey k, parseNats vs, parseNats idx, parseONats nxt, parseONats prv with
     | some k, some vs, some idx, some nxt, some prv =>
